@@ -975,8 +975,13 @@ func callBuiltin(caller *frame, callpos token.Pos, fn *ssa.Builtin, args []value
 			}
 			return arg0
 		}
-		// append([]T, ...[]T) []T
-		return append(args[0].([]value), args[1].([]value)...)
+		// append([]T, ...[]T) []T  (aggregate elements are copied by value)
+		src := args[1].([]value)
+		dst := args[0].([]value)
+		for _, e := range src {
+			dst = append(dst, copyVal(e))
+		}
+		return dst
 
 	case "copy": // copy([]T, []T) int or copy([]byte, string) int
 		src := args[1]
@@ -984,7 +989,20 @@ func callBuiltin(caller *frame, callpos token.Pos, fn *ssa.Builtin, args []value
 			params := fn.Type().(*types.Signature).Params()
 			src = conv(caller, params.At(0).Type(), params.At(1).Type(), src)
 		}
-		return copy(args[0].([]value), src.([]value))
+		dst, srcs := args[0].([]value), src.([]value)
+		n := len(dst)
+		if len(srcs) < n {
+			n = len(srcs)
+		}
+		if n > 0 && len(srcs) > 0 && &dst[0] == &srcs[0] {
+			return n
+		}
+		tmp := make([]value, n)
+		for k := 0; k < n; k++ {
+			tmp[k] = copyVal(srcs[k])
+		}
+		copy(dst, tmp)
+		return n
 
 	case "close": // close(chan T)
 		return nil
